@@ -184,3 +184,27 @@ T(["C12", "C16"], CR, "run_games", '            logging.info(f"Running example: 
 T(["C03", "C02", "C14"], TAD, "ProbabilisticNode.prune_paths", "        if len(surviving_states) == len(self.next_states):\n            return\n", "        if len(surviving_states) >= len(self.next_states):\n            return\n" if False else "        if len(self.next_states) == len(surviving_states):\n            return\n", "operands of the length test exchanged")
 T(["C04", "C14", "C05"], TAD, "Solver.__init__", "self.floor = abs(math.floor(math.log(threshold, 10)))", "self.floor = abs(int(math.floor(math.log10(threshold))))", "log10 instead of log(x, 10)")
 T(["C15", "C11"], GEN, "check_input", 'if max_reward <= 0:', 'if max_reward < 1:', "integer guard `< 1` for `<= 0`")
+
+# ---- found by tools/mut_fuzz.py (systematic single-site mutation; these passed the tests and every check at first) ------------
+SG = "stochastic_game_from_roborta_board.py"
+M("C04", TAD, "PlayerTwo.get_worst_strategies_reachability", "                min_reach_prob = next_state_reach_probability\n", "                pass\n", "C04.1", "running minimum never updated")
+M("C04", TAD, "PlayerTwo.get_worst_strategies_reachability", "elif next_state_reach_probability == min_reach_prob:", "elif not (next_state_reach_probability == min_reach_prob):", "C04.1", "tie branch negated")
+M("C05", TAD, "PlayerTwo.get_worst_strategies_total_rewards", "                worst_strategies = [action]\n", "                pass\n", "C05.2", "list not reset on a better value")
+M("C14", TAD, "PlayerTwo._expected_rewards_min_reach", "                    min_rewards = next_state_exp_rewards\n", "                    pass\n", "C14.1", "diagnostic minimum never updated")
+M("C16", CR, "save_results_to_file", 'file_name.split("/")[-1].split(".")[0]', 'file_name.split("/")[-1].split(".")[1]', "C16.4", "report named after the second dotted component")
+M("C16", CR, "save_results_to_file", 'file_name.split("/")[-1].split(".")[0]', 'file_name.split("/")[-2].split(".")[0]', "C16.4", "report named after the directory")
+M("C11", GEN, "write_robots", 'open(file_name, "w")', 'open("w", file_name)', "C11.1", "open arguments swapped")
+M("C17", SG, "create_sg_from_board", "force_down = (max_move+1) == 4", "force_down = (max_move+1) != 4", "C17.2", "manual force_down suffix inverted")
+M("C17", SG, "create_sg_from_board", "force_down = (max_move+1) == 4", "force_down = (max_move+1) == 3", "C17.2", "manual force_down suffix for arrow code 2")
+T(["C17"], SG, "create_sg_from_board", "force_down = (max_move+1) == 4", "force_down = max_move >= 3", "equivalent force_down test")
+M("C01", TAD, "StochasticGame.solve", "probabilities = [state.reach_probability for state in state_list]", "probabilities = [state.expected_reach_min_rewards for state in state_list]", "C01.6", "probabilities slot reads another field")
+# ---- found by tools/equiv_fuzz.py (single-site behaviour-preserving rewrites that were reported as violations at first) -----------
+T(["C02", "C05"], TAD, "StochasticGame.solve", "        if self.prune_states:\n            logging.info(\"Prunning states with no reachability ...\")\n            solver.prune_stochastich_game()\n        else:\n            logging.info(\"Not prunning states.\")",
+  "        if not self.prune_states:\n            logging.info(\"Not prunning states.\")\n        else:\n            logging.info(\"Prunning states with no reachability ...\")\n            solver.prune_stochastich_game()", "if/else of the pruning step exchanged with a negated test")
+T(["C06", "C05"], TAD, "PlayerTwo.get_worst_strategies_total_rewards", "if len(self.next_states) == 0:", "if 0 == len(self.next_states):", "flipped emptiness comparison")
+T(["C06", "C02", "C14"], TAD, "PlayerTwo.value_iteration_rewards", "        if not self.next_states:\n            return 0, 0, 0", "        nothing_left = not self.next_states\n        if nothing_left:\n            return 0, 0, 0", "emptiness test stored in a local first")
+T(["C01", "C04", "C06"], TAD, "Solver.value_iteration_reachability", "        if self.state_list[0].reach_probability == 0 and prune_states:\n", "        no_solution = self.state_list[0].reach_probability == 0 and prune_states\n        if no_solution:\n", "no-solution test stored in a local first")
+T(["C02", "C03", "C05", "C06", "C10", "C13", "C14"], TAD, "ProbabilisticNode.remove_path", "new_next_states.append((new_state_probability, _next_state[NEXT_STATE_IDX]))", "new_next_states += [(new_state_probability, _next_state[NEXT_STATE_IDX])]", "append written as += [x]")
+T(["C01", "C04", "C06", "C07"], RDFS, "reverse_dfs_from", "            if previous_state not in visited_states:\n", "            unseen = previous_state not in visited_states\n            if unseen:\n", "membership test stored in a local first")
+T(["C01", "C04", "C06", "C07"], RDFS, "reverse_dfs_from", "                pending_states.append(previous_state)", "                pending_states += [previous_state]", "push written as += [x]")
+T(["C01", "C04", "C06", "C07", "C10"], RDFS, "reverse_dfs", "    states_reaching_final = [state for state in visited_states if state not in final_states]\n", "    states_reaching_final = []\n    for state in visited_states:\n        if state not in final_states:\n            states_reaching_final.append(state)\n", "result comprehension written as a loop")
